@@ -389,6 +389,11 @@ def run(ctx):
             cfg = mk_cfg(rng, "client")
             cfg["chunkmode"] = "attr"
             traces.append(run_case(cfg, body, [chunk] if chunk else [], random_cuts(rng, 3 * len(body) + 5)))
+        # the same body stuffed by the harness (reference serialisation, checked by TLC) -> real server: the server side is
+        # exercised on every small body even where the real client's own wire is already rejected (known findings)
+        scfg = mk_cfg(rng, "server")
+        traces.append(run_case(scfg, concretise(rng, cs), [], random_cuts(rng, 3 * len(cs) + 8),
+                               tail=list(rng.choice([b"", b"", b"RSET\r\n", b"XY\r\n"]))))
     ctx.exhaustive = False   # the class-level space is enumerated completely, byte values and wire splits are sampled
     ctx.extra["exhaustive_bodies"] = "all bodies of <= %d lines x <= %d symbols over %s, read sizes %s (0 = unbounded)" % (maxlines, maxsym, alphabet, ctx.pick("1,2,3,0", "1..5,0"))
     for _ in range(ctx.pick(300, 15000)):
@@ -399,7 +404,7 @@ def run(ctx):
         else:
             reads = [rng.randint(1, 9) for _ in range(rng.randint(1, 5))]
         traces.append(run_case(cfg, body, reads, random_cuts(rng, 3 * len(body) + 5)))
-    for _ in range(ctx.pick(300, 10000)):
+    for _ in range(ctx.pick(150, 10000)):
         body = concretise(rng, random_body(rng) if rng.random() < 0.9 else [])
         cfg = mk_cfg(rng, "server")
         tail = rng.choice([b"", b"", b"RSET\r\n", b"XY\r\n", b"\r\n", b"RSET\r\nNOPE\r\n"])
